@@ -68,7 +68,10 @@ CHECKS = {
            "theorems: one Path value answers EVERY document as a fresh Path would after EVERY history of earlier documents (refuted without the copy); for every path "
            "without recursive descent and every document whose values have the kinds the selectors expect, Extract = the reference evaluation in document order; the three "
            "open deviations each have a witness outside that class. ~5*10^4 model-vs-implementation evaluations and histories per run (recursive descent and errors "
-           "included), the reference evaluation as oracle. Partial: invalid documents, the nesting limit, Path.Get and Path.Unmarshal are compared, not modelled."),
+           "included), the reference evaluation as oracle. The TEXT side (Model/PathText.v): the parts Extract hands out are windows of its private copy of the document and the walk "
+           "goes on reading (recursive descent reads below a part already handed out); with keys unescaped in a copy and scalars stepped over -- both TRANSLATED facts -- every part is "
+           "the document's own text whatever the walk reads and however often; unescaping where the key stands is refuted by the witness of the defect repaired in this round "
+           "(`$..a` on {\"a\":{\"k\\ny\":1}}); generated documents now spell keys and strings with escapes. Partial: invalid documents, the nesting limit, Path.Get and Path.Unmarshal are compared, not modelled."),
   'note': TB,
   'technique': 'Coq proofs (parser totality; evaluation pure for every history and equal to the reference on fitting documents, over translated node semantics) + extracted-model correspondence + differential history/concurrency search',
  },
@@ -110,7 +113,9 @@ CHECKS = {
            "struct, every document and every address, every store the decoders may make lies inside the destination, and a field no key selects is in no store "
            "(Model/Layout.v); pattern-filled allocations with guards are decoded into and every changed byte must lie in a store of the model (op c07.stores); the "
            "slice decoder's slots lie inside its working array for every capacity. Partial: stores through pointers, slice/map/string headers and the runtime helpers "
-           "are covered by canaries only."),
+           "are covered by canaries only."
+           " Slice destinations that hold elements and have spare capacity are decoded after an earlier, longer result that the caller keeps: the earlier result must stay as it is and the "
+           "new one must equal encoding/json's; ,string fields meet null (nothing is stored whatever the width of the field); the translated newSlice / clearing statements are restated here."),
   'note': TB,
   'technique': 'Coq write-set bounds theorems over translated fill statement + canary/guard/header/GC/checkptr differential harness',
  },
@@ -140,7 +145,10 @@ CHECKS = {
            "no Filter method writes its receiver (translated from code.go), hence under EVERY schedule each goroutine compiles the program of its own query (refuted when "
            "Filter writes the query into the shared node); rounds of goroutines released together, each with a query nobody has used, restricting one interface-typed "
            "field by different sub queries. Partial: steps are sequentially "
-           "consistent (the unsynchronised publish of the !race build relies on the hardware memory model, which is not modelled); real interleavings are sampled."),
+           "consistent (the unsynchronised publish of the !race build relies on the hardware memory model, which is not modelled); real interleavings are sampled."
+           " FIRST USE (Model/InitOnce.v): initEncoder / initDecoder are, as TRANSLATED, one Once.Do whose body ends with the allocation of the cache slice; for any number of "
+           "goroutines and EVERY schedule a lookup that gets past the init function finds the slice allocated (a test of typeAddr in front of the Once is refuted by a 4-step schedule); "
+           "observed in fresh child processes whose first calls are made by 64 goroutines at once, staggered by 0..8 microseconds, encoder first and decoder first."),
   'note': TB,
   'technique': 'Coq any-schedule theorems (cache publish protocol, pooled-context discipline from translator analysis) + concurrent differential harness in race and !race builds',
  },
@@ -157,7 +165,9 @@ CHECKS = {
            "(including spare capacity). Encoder side of the callbacks: bytes a MarshalJSON/MarshalText returns are only read -- a translator taint analysis (go/types objects) "
            "follows such a slice through assignments, re-slicing and calls and lists every append/element store/copy into it; histories with marshalers that return "
            "windows into what the caller holds keep every view intact (refuted when the sentinel is appended to the returned slice); RawMessage / marshaler windows into a "
-           "canaried buffer are encoded through six entry points. Partial: the region model abstracts the decoders' sub-slicing; the Decoder's window arithmetic is observed."),
+           "canaried buffer are encoded through six entry points. Partial: the region model abstracts the decoders' sub-slicing; the Decoder's window arithmetic is observed."
+           " Decoded values hold slices of pointers, maps, nested slices and structs; results of every decode entry point are held and re-read after each later decode into another value "
+           "of the same type (what the slice decoder's pooled working array could share)."),
   'note': TB,
   'technique': 'Coq history theorem over a region memory model with premises from translator alias analysis + snapshot/overwrite/churn harness',
  },
@@ -174,7 +184,11 @@ CHECKS = {
            "the pooled working array of every slice decoder is modelled (Model/SlicePool.v; the clearing of new slots read from slice.go): for EVERY content an earlier "
            "call -- longer, shorter, failed between two elements -- may have left in it, every element type and element decoder, the call stores exactly `spec`; without "
            "the clearing, or with it for the first slots only, the statement is refuted; sequences through one slice decoder (13 element types) are compared with "
-           "encoding/json and []int sequences with the model. Partial: type-cache state (C14/C10) and the remaining decoder-side pooled state are observed."),
+           "encoding/json and []int sequences with the model. Partial: type-cache state (C14/C10) and the remaining decoder-side pooled state are observed."
+           " A long-lived Decoder (Model/DecOpts.v): the Option value saved before a call's option functions run is put back by a deferred statement (TRANSLATED: on every way out of the "
+           "call); for every history of calls -- decoded, failed or left by a panic -- a call sees its own options applied to what the Decoder was set up with (restoring on success only is "
+           "refuted). Two-step histories with their own oracle (a failing call, then a call that must equal the same call made first): deep list encoded after a failed encoding of it, "
+           "plain Decode after a failing DecodeWithOption / DecodeContext on the same Decoder."),
   'note': TB,
   'technique': 'Coq leftover-independence theorem over translated option/context assignments + cold-process oracle vs random call histories',
  },
@@ -275,13 +289,17 @@ CHECKS = {
            "builds from it exactly the tree that was written minus the members left out; every string AppendString writes and every integer AppendInt/AppendUint writes is "
            "such a leaf (from the C17 / C16 theorems over the translated tables). (2) for every width and every integer, the integer decoder reads AppendInt's / AppendUint's "
            "text back as the same integer. (3) for every byte string, the string decoder reads AppendString's literal back as the same string. (4) TYPED round trip: for "
-           "every type of the modelled fragment (bool, integers, strings, pointers, slices, arrays, string-keyed maps, structs; Model/EncTyped.v = what Marshal writes, "
+           "every type of the modelled fragment (bool, integers, strings, pointers, slices, arrays, string-keyed maps, structs, []byte; Model/EncTyped.v = what Marshal writes, "
            "Model/Decode.v = what Unmarshal does, both run beside the implementation: ops c01.typed, c02.dec) and every round-trippable value, the text Marshal writes is one "
            "RFC 8259 text, reading it gives the tree that was written, and decoding that tree into a fresh value gives the value back. Observed: generated "
            "round-trippable values of the lossless C01 grammar (extreme integers of every width, 17-digit floats, every escape class, nil/empty containers, nesting; "
            "round-trippable = encoding/json's own round trip gives the value back) through Marshal->Unmarshal, Marshal(&v), MarshalIndent, Encoder->Decoder, "
            "indenting Encoder -> Decoder fed one byte at a time, encoding/json's text -> Unmarshal, and streams of several values through one Encoder and one Decoder. "
-           "One defect found and repaired (escaped struct key across a stream buffer refill, recorded under C09). Partial: floats and base64 are strconv / encoding/base64 on "
+           "(5) BYTE SLICES: base64 as both sides use it (Model/Base64.v: padded standard alphabet; a decoder that steps over CR/LF, wants whole quanta, accepts padding only in the "
+           "last one and ignores the unused bits of the last sextet) -- for EVERY byte string decode(encode bs) = bs, the text consists of alphabet characters none of which the string "
+           "scanner changes, so the literal reads back as the bytes, its length is EncodedLen, and whatever the decoder accepts it stores bytes; the model runs beside encoding/base64 "
+           "and beside Marshal / Unmarshal / Decoder (ops c04.b64enc, c04.b64dec: every length class, CR/LF anywhere, cut, foreign characters, misplaced / missing padding, set "
+           "spare bits, URL alphabet). One defect found and repaired (escaped struct key across a stream buffer refill, recorded under C09). Partial: floats are strconv on "
            "both sides (not modelled); how the typed decoders store leaves into Go memory is observed, not modelled; values whose shape is one of C01's open encoder findings "
            "are left to C01."),
   'note': TB,
